@@ -2,6 +2,7 @@
 import itertools
 import os
 import random
+import re
 import shutil
 import subprocess
 
@@ -57,6 +58,10 @@ def judge_paths(v, maxlen, seed=1):
     qs = []
     for fs in ("/x/cg", "/x/cg/"):
         for s in strs:
+            qs.append({"q": "path", "fs": fs, "p": s, "children": ["a", "b.", "*"]})
+    # unusual spellings of the cgroup-fs root itself: the file-system root, doubled trailing slashes
+    for fs in ("/", "/x/cg//", "//x//cg", "/x"):
+        for s in strings(min(maxlen, 3)) + strs[-300:]:
             qs.append({"q": "path", "fs": fs, "p": s, "children": ["a", "b.", "*"]})
     small = strings(3)
     for a in small:
@@ -202,7 +207,16 @@ def judge_resolve(v, ntrees, seed):
                 pat = "/" + pat + "//"
             if rng.random() < 0.05:
                 pat = ""
-            qs.append({"q": "resolve", "fs": root, "pattern": pat})
+            # the same root under other spellings: trailing slashes, and the file-system root with the prefix moved into the pattern
+            sp = rng.random()
+            fs, qpat = root, pat
+            if sp < 0.15:
+                fs = root + "/"
+            elif sp < 0.25:
+                fs = root + "//"
+            elif sp < 0.35 and pat:
+                fs, qpat = "/", root.strip("/") + "/" + pat
+            qs.append({"q": "resolve", "fs": fs, "pattern": qpat})
             meta.append((root, dirs, pat))
     res = pure.run_queries(qs)
     n = 0
@@ -218,9 +232,12 @@ def judge_resolve(v, ntrees, seed):
         n += 1
         if want:
             v.count("resolve_nonempty")
-        if sorted(a["r"]) != sorted(want):
-            v.bad("resolve-wildcard", "", "fs %s pattern %r: resolved %s; matching directories %s (all dirs %s)" % (
-                root, pat, sorted(x[len(root):] for x in a["r"]), sorted(x[len(root):] for x in want), sorted(dirs)))
+        got = sorted(re.sub("/+", "/", x) for x in a["r"])  # spelling of the root (doubled slashes) is not judged here
+        if q["fs"] != root:
+            v.count("resolve_other_root_spelling")
+        if got != sorted(want):
+            v.bad("resolve-wildcard", "" if q["fs"] == root else "root-spelling", "fs %r pattern %r: resolved %s; matching directories %s (all dirs %s)" % (
+                q["fs"], q["pattern"], a["r"], sorted(x[len(root):] for x in want), sorted(dirs)))
     shutil.rmtree(base, ignore_errors=True)
     v.count("resolve_queries", n)
     return n
